@@ -7,6 +7,8 @@ rendered text is a valid expression, and that it evaluates to a value equal to t
 (sign of zero, infinities, NaN, enum members of str/int-based enums, nested collections).
 Plus the dispatch clauses: subclass arms before superclass arms, every type admitted by
 is_assertable has a renderer arm, every trace-observer assertion class has a renderer.
+is_assertable, interpreted over adversarial containers, admits nothing that does not render to an
+equal literal; every recorded ObjectAssertion holds a deep copy of the value.
 Whether `x == pytest.approx(nan)` holds, and name resolution of enum classes in the exported
 namespace, are not decided.
 """
